@@ -1331,31 +1331,23 @@ def run_rename_item(item, r: common.Result) -> None:
 
 def check_control(ctx: Ctx, r: common.Result, labels: List[str], spec: Any, broken: str) -> None:
     """A file that breaks exactly one documented limit on names by one.  It is neither compliant nor a file 'whose only
-    defects are indentation / tabs / trailing whitespace', so the statement demands no particular verdict: the verdict is
-    recorded (counters, outcome); what IS demanded is that the checker returns (no exception) and that what it returns
-    agrees with what it prints."""
+    defects are indentation / tabs / trailing whitespace', so the statement demands NOTHING of it: the verdict (and an
+    exception, if the checker dies on it) is recorded in counters / outcomes only, never alarmed.  The controls show that
+    the boundary files of the compliant families really sit AT the limit (one more character is refused)."""
     text = ctx.files[ctx.target]
-    case = {"family": ctx.family, "control": broken, "files": ctx.files, "target": ctx.target, "ops": [], "mangled": text, "labels": labels, "spec": repr(spec)}
     for replace in (False, True):
         r.evals += 1
         mode = "replace" if replace else "check"
         v = ctx.validate_real(text, replace)
         if v[0] == "exc":
-            r.violation(
-                {"kind": "exception", "exc": v[1], "site": v[2], "mangling": "none", "entry": "control:" + broken},
-                f"[{ctx.family} control {broken} {ctx.target}] validate_file({mode}) raised {v[1]} at {v[2]} ({v[3]})",
-                case,
-            )
+            r.count(f"control_{broken}_raised_{v[1]}_at_{v[2]}(outside the statement)")
+            r.outcome(("control", ctx.family, broken, mode, "exc", v[1], v[2]))
             continue
         _, ok, out, said_ok, left, first = v
         r.count(f"control_{broken}_{'accepted' if ok else 'refused'}")
         r.outcome(("control", ctx.family, broken, mode, ctx.target, text, bool(ok), left, first))
         if bool(ok) != bool(said_ok):
-            r.violation(
-                {"kind": "verdict_inconsistent", "mangling": "none", "entry": "control:" + broken},
-                f"[{ctx.family} control {broken} {ctx.target}] validate_file({mode}) returned {ok} but printed OK: {said_ok}",
-                case,
-            )
+            r.count(f"control_{broken}_verdict_differs_from_printout(outside the statement)")
 
 
 def _control_target(spec: Dict[str, Any]) -> str:
